@@ -92,6 +92,27 @@ Proof.
 Qed.
 Print Assumptions C20_malformed_weights.
 
+(* A status-report ENTRY WITHOUT a 'stage-weight' key (an entry that only defines the status executable, its arguments
+   or references, or an empty mapping: Model.WEntry) next to weighted entries and stages without any entry
+   (Model.WMissing): the three ways of giving a stage no weight - no entry, an entry without the key, the weight 0.0 -
+   are loaded alike; after a load EVERY stage has a weight in the status-report (so the monitor never meets a missing
+   key in a loaded workflow); and numbers that are non-negative and sum to one are the weights in use, the stages
+   without a weight weighing 0 - for every scale, every n >= 1 and every such assignment. *)
+Theorem C20_entry_without_weight : forall (c : Z) (given : list wt),
+  inject c (map as_zero given) = inject c given /\ used c (map as_zero given) = used c given /\
+  (forall loaded, inject c given = Some loaded -> forallb has_weight loaded = true) /\
+  (1 <= c -> (1 <= length given)%nat ->
+   Forall (fun w => match w with WNum _ | WMissing | WEntry => True | _ => False end) given ->
+   Forall (fun m => 0 <= m) (map (fun w => match w with WNum m => m | _ => 0 end) given) ->
+   sumZ (map (fun w => match w with WNum m => m | _ => 0 end) given) = 1000 * c ->
+   used c given = Some (map (Z.mul (Z.of_nat (length given))) (map (fun w => match w with WNum m => m | _ => 0 end) given))).
+Proof.
+  intros c given. split; [exact (inject_as_zero c given)|]. split; [exact (used_as_zero c given)|].
+  split; [exact (inject_has_weights c given)|].
+  intros Hc Hn Hk Hp Hs. exact (used_entries_kept c given _ Hc Hn Hk eq_refl Hp Hs).
+Qed.
+Print Assumptions C20_entry_without_weight.
+
 (* The status monitor alone, on ANY entries it may find in the status-report of the loaded FlowIR
    (also one set after loading): the weights it uses have one entry per stage, are non-negative and
    sum to one; non-negative numbers summing to one are used as they are. *)
@@ -162,6 +183,38 @@ Proof.
   split; [exact (restart_later_unchanged start stages nodes s)|exact (restart_ordinary_launch stages nodes)].
 Qed.
 Print Assumptions C20_restart_lists.
+
+(* The WINDOW between a component's termination and the controller's notification (Model.nstate: a node is running,
+   has REPORTED a terminal state without Controller.finishedCheck having run for it, or has been OBSERVED): for ANY
+   nodes in ANY of the three states, any starting stage and any selection of running components that terminate
+   without a notification being delivered,
+   - the two lists partition the known stages at that moment too,
+   - they are the lists of the moment before (they depend on what the controller observed only),
+   - a stage (from the starting one on) with a component that is not observed - running or terminated - is in transit
+     and NOT finished, so its weight is never counted in full on top of its progress,
+   - every component of a finished stage reports a terminal state: the full weight IS its fraction of terminated
+     components; and that fraction is between 0 and 1 for every stage. *)
+Theorem C20_window_lists : forall (sel : Z * nstate -> bool) (start : Z) (stages : list Z) (nodes : list (Z * nstate)) (s : Z),
+  (In s (win_finished start stages nodes) -> ~ In s (win_in_transit start nodes)) /\
+  (In s stages ->
+   (In s (win_finished start stages nodes) /\ ~ In s (win_in_transit start nodes)) \/
+   (~ In s (win_finished start stages nodes) /\ In s (win_in_transit start nodes))) /\
+  (win_finished start stages (terminate_sel sel nodes) = win_finished start stages nodes /\
+   win_in_transit start (terminate_sel sel nodes) = win_in_transit start nodes) /\
+  (forall st, In (s, st) nodes -> st <> NObserved -> start <= s ->
+     In s (win_in_transit start nodes) /\ ~ In s (win_finished start stages nodes)) /\
+  (start <= s -> In s (win_finished start stages nodes) ->
+     (forall st, In (s, st) nodes -> st = NObserved) /\ stage_reported nodes s = stage_size nodes s) /\
+  0 <= stage_reported nodes s <= stage_size nodes s.
+Proof.
+  intros sel start stages nodes s.
+  split; [exact (finished_not_in_transit stages (restart_nodes start (observed_view nodes)) s)|].
+  split; [exact (known_stage_counted_once stages (restart_nodes start (observed_view nodes)) s)|].
+  split; [exact (window_lists_unchanged sel start stages nodes)|].
+  split; [intros st; exact (window_unobserved_in_transit start stages nodes s st)|].
+  split; [exact (window_finished_complete start stages nodes s)|exact (stage_reported_bounds nodes s)].
+Qed.
+Print Assumptions C20_window_lists.
 
 Theorem C20_restart_progress : forall (D : Z) (k : nat) (ws prog : list Z),
   0 <= D -> Forall (fun w => 0 <= w) ws -> Forall (fun a => 0 <= a <= D) prog ->
@@ -258,5 +311,19 @@ Example C20_nonvacuous :
   ctl_finished 0 [0; 1; 2; 3] [(0, true); (1, true); (2, true); (2, true); (3, true)] = [] /\
   total [4000; 3000; 2000; 1000] (restart_prog 2 2 [0; 0]) = 2 * 7000 /\
   total [4000; 3000; 2000; 1000] (restart_prog 2 2 [1; 0]) = 2 * 8000 /\
-  total [4000; 3000; 2000; 1000] (restart_prog 2 2 (repeat 2 (4 - 2))) = 2 * 10000.
+  total [4000; 3000; 2000; 1000] (restart_prog 2 2 (repeat 2 (4 - 2))) = 2 * 10000 /\
+  (* stage 1 only defines a status executable (an entry without weight), 0.7 + 0.3 given: loaded as 0.0, kept *)
+  inject 10 [WNum 7000; WEntry; WNum 3000] = Some [WNum 7000; WNum 0; WNum 3000] /\
+  used 10 [WNum 7000; WEntry; WNum 3000] = Some [21000; 0; 9000] /\
+  used 10 [WEntry; WMissing; WNum 10000] = Some [0; 0; 30000] /\
+  used 10 [WNum 7000; WEntry; WNum 2000] = Some [9990; 9990; 10020] /\
+  (* the monitor alone on an entry without the key: a KeyError, the stage counts as 1000/n, equal weights *)
+  mon_used 10 [WNum 7000; WEntry; WNum 3000] = [10000; 10000; 10000] /\
+  (* the window: stage0's only component terminated, the controller (already on stage 1) was not notified: stage 0 is
+     in transit with progress 1/1, not finished; after the notification it is finished *)
+  win_finished 0 [0; 1; 2] [(0, NReported); (1, NRunning); (1, NRunning); (2, NRunning)] = [] /\
+  win_in_transit 0 [(0, NReported); (1, NRunning); (1, NRunning); (2, NRunning)] = [0; 1; 1; 2] /\
+  stage_reported [(0, NReported); (1, NRunning); (1, NRunning); (2, NRunning)] 0 = 1 /\
+  win_finished 0 [0; 1; 2] [(0, NObserved); (1, NReported); (1, NRunning); (2, NRunning)] = [0] /\
+  terminate_sel (fun ns => fst ns =? 1) [(0, NObserved); (1, NRunning); (2, NRunning)] = [(0, NObserved); (1, NReported); (2, NRunning)].
 Proof. repeat split; reflexivity. Qed.
